@@ -768,9 +768,7 @@ func (r *runner) ingest(path, key, env string, envFails bool, ds string, pl []pa
 		route.VerifSamplerselBatch(r.router, w, req)
 	case "otlp":
 		err := route.VerifSamplerselOTLP(r.router, []huskyotlp.BatchMsgp{{Dataset: ds, Events: []huskyotlp.EventMsgp{{Attributes: msgpMap(pl), SampleRate: 1, Timestamp: time.Unix(1700000000, 0)}}}}, key)
-		if err != nil {
-			return nil, "error"
-		}
+		_ = err // a refused request (failed environment lookup) shows as "nothing" below: no span, no event
 	default:
 		return nil, "bad-op"
 	}
